@@ -111,6 +111,9 @@ const (
 	c36TrailerTyped  = 1 // a counter family with HELP/TYPE and explicit timestamp 7000
 	c36TrailerBareTS = 2 // an untyped sample without metadata lines, explicit timestamp 7000
 	c36TrailerBare   = 3 // an untyped sample without metadata lines and without timestamp
+	// a second classic histogram family "h2" {le=1: 1, +Inf: 2, sum 3}:
+	c36TrailerHistNoTS = 4 // no sample timestamp, bucket exemplar WITHOUT timestamp
+	c36TrailerHistTS   = 5 // sample timestamp 3000, bucket exemplar with timestamp
 )
 
 const (
@@ -141,6 +144,8 @@ type c36Case struct {
 	ST           bool  `json:"st"`
 	Native       int   `json:"native"` // protobuf: bit i = set i also carries an exponential histogram
 	Trailer      int   `json:"trailer"`
+	ExNoTS       int   `json:"ex_no_ts"` // bit i: the exemplars of set i carry NO timestamp
+	Broken       int   `json:"broken"`   // bit i: set i is not convertible (non-cumulative buckets / count mismatch)
 	// text/OpenMetrics: permutation of the series lines (canonical order = set by set, buckets
 	// ascending, [+Inf], sum, count). protobuf: [swap sets, bucket permutation index per set...].
 	Perm []int `json:"perm"`
@@ -158,6 +163,8 @@ type c36Set struct {
 	ST     int64
 	Native bool
 	Float  bool
+	ExNoTS bool
+	Broken bool
 }
 
 func (c *c36Case) sets() []c36Set {
@@ -188,6 +195,8 @@ func (c *c36Case) sets() []c36Set {
 			s.ST = 500 + int64(i)*250
 		}
 		s.Native = c.Native&(1<<i) != 0
+		s.ExNoTS = c.ExNoTS&(1<<i) != 0
+		s.Broken = c.Broken&(1<<i) != 0
 		out = append(out, s)
 	}
 	return out
@@ -205,13 +214,19 @@ func c36LabelPairs(kv []string) []*dto.LabelPair {
 	return out
 }
 
-func c36Exemplar(set, bucket int) *dto.Exemplar {
-	return &dto.Exemplar{
-		Label:     c36LabelPairs([]string{"trace", fmt.Sprintf("t%d%d", set, bucket)}),
-		Value:     proto.Float64(0.25 + float64(bucket) + 10*float64(set)),
-		Timestamp: timestamppb.New(c36TimeMs(1500 + int64(bucket))),
+func c36Exemplar(set, bucket int, noTS bool) *dto.Exemplar {
+	e := &dto.Exemplar{
+		Label: c36LabelPairs([]string{"trace", fmt.Sprintf("t%d%d", set, bucket)}),
+		Value: proto.Float64(0.25 + float64(bucket) + 10*float64(set)),
 	}
+	if !noTS {
+		e.Timestamp = timestamppb.New(c36TimeMs(1500 + int64(bucket)))
+	}
+	return e
 }
+
+// c36Breakable: can the set's exposition be made non-convertible?
+func c36Breakable(s *c36Set) bool { return len(s.Bounds) > 0 || s.Inf }
 
 func c36HistFamily(sets []c36Set, order []int, bperm [][]int) *dto.MetricFamily {
 	mf := &dto.MetricFamily{Name: proto.String("h"), Help: proto.String("a histogram"), Type: dto.MetricType_HISTOGRAM.Enum()}
@@ -232,15 +247,22 @@ func c36HistFamily(sets []c36Set, order []int, bperm [][]int) *dto.MetricFamily 
 				b.CumulativeCount = proto.Uint64(uint64(cum))
 			}
 			if s.Ex == 2 || (s.Ex == 1 && i == 0) {
-				b.Exemplar = c36Exemplar(si, i)
+				b.Exemplar = c36Exemplar(si, i, s.ExNoTS)
 			}
 			bs = append(bs, b)
 		}
 		for i, ub := range s.Bounds {
-			mk(i, ub, s.Cum[i])
+			cum := s.Cum[i]
+			if s.Broken && i == 0 {
+				cum = s.Total + 5 // non-cumulative: more than the later buckets and the count
+			}
+			mk(i, ub, cum)
 		}
 		if s.Inf {
 			mk(len(s.Bounds), math.Inf(1), s.Total)
+		}
+		if s.Broken && len(s.Bounds) == 0 {
+			h.SampleCount = proto.Uint64(uint64(s.Total) + 1) // count differs from the +Inf bucket
 		}
 		if bperm != nil && bperm[si] != nil {
 			p := make([]*dto.Bucket, len(bs))
@@ -363,6 +385,18 @@ func c36TrailerFamily(tr int) *dto.MetricFamily {
 	case c36TrailerBare:
 		return &dto.MetricFamily{Name: proto.String("u"), Type: dto.MetricType_UNTYPED.Enum(),
 			Metric: []*dto.Metric{{Untyped: &dto.Untyped{Value: proto.Float64(5)}}}}
+	case c36TrailerHistNoTS, c36TrailerHistTS:
+		ex := &dto.Exemplar{Label: c36LabelPairs([]string{"trace", "h2"}), Value: proto.Float64(0.5)}
+		m := &dto.Metric{}
+		if tr == c36TrailerHistTS {
+			ex.Timestamp = timestamppb.New(c36TimeMs(1700))
+			m.TimestampMs = proto.Int64(3000)
+		}
+		m.Histogram = &dto.Histogram{SampleCount: proto.Uint64(2), SampleSum: proto.Float64(3), Bucket: []*dto.Bucket{
+			{UpperBound: proto.Float64(1), CumulativeCount: proto.Uint64(1), Exemplar: ex},
+			{UpperBound: proto.Float64(math.Inf(1)), CumulativeCount: proto.Uint64(2)},
+		}}
+		return &dto.MetricFamily{Name: proto.String("h2"), Help: proto.String("second histogram"), Type: dto.MetricType_HISTOGRAM.Enum(), Metric: []*dto.Metric{m}}
 	}
 	return nil
 }
@@ -444,7 +478,7 @@ var c36EncCache sync.Map
 
 // c36GetEnc encodes (once per value configuration) the pieces of a text/OpenMetrics payload.
 func c36GetEnc(c *c36Case, sets []c36Set) *c36Enc {
-	key := fmt.Sprint(c.Fmt, c.LL, c.Sh, c.Vec, c.Sum, c.TSC, c.Ex, c.ST, c.Trailer)
+	key := fmt.Sprint(c.Fmt, c.LL, c.Sh, c.Vec, c.Sum, c.TSC, c.Ex, c.ST, c.Trailer, c.ExNoTS, c.Broken)
 	if v, ok := c36EncCache.Load(key); ok {
 		return v.(*c36Enc)
 	}
@@ -453,7 +487,7 @@ func c36GetEnc(c *c36Case, sets []c36Set) *c36Enc {
 	e.header, e.lines, e.created = c36Lines(c.Fmt, sets)
 	var buf bytes.Buffer
 	switch c.Trailer {
-	case c36TrailerTyped:
+	case c36TrailerTyped, c36TrailerHistNoTS, c36TrailerHistTS:
 		buf.Write(c36Encode(f, c36TrailerFamily(c.Trailer), false))
 	case c36TrailerBareTS:
 		if c.Fmt == c36OM {
@@ -501,15 +535,21 @@ func (n c36NH) key(withST bool) string {
 }
 
 func c36ExKey(x tpxEx) string {
-	return fmt.Sprintf("%s %s %v@%d", x.Labels, tpxF(x.Val), x.HasTS, x.TS)
+	return fmt.Sprintf("%s %s|%v@%d", x.Labels, tpxF(x.Val), x.HasTS, x.TS)
 }
 
 // c36Want computes, from the model alone, the custom-bucket histograms that must be emitted.
 func c36Want(c *c36Case, sets []c36Set) []c36NH {
 	var out []c36NH
+	// exemplars without timestamp are (documented) not returned for native histograms by the
+	// protobuf parser itself; NHCBParser keeps them
+	keepNoTS := c.Fmt != c36Proto
 	for si, s := range sets {
 		if s.Native && !c.IgnoreNative {
 			continue // already has an exponential native histogram: no NHCB
+		}
+		if s.Broken && c36Breakable(&s) {
+			continue // not a valid classic histogram: nothing to convert
 		}
 		kv := append([]string{"__name__", "h"}, s.Lbl...)
 		if c.TypeUnit {
@@ -533,15 +573,34 @@ func c36Want(c *c36Case, sets []c36Set) []c36NH {
 			}
 			for b := 0; b < nb; b++ {
 				if s.Ex == 2 || (s.Ex == 1 && b == 0) {
-					w.Ex = append(w.Ex, c36ExKey(tpxEx{
-						Labels: labels.FromStrings("trace", fmt.Sprintf("t%d%d", si, b)).String(),
-						Val:    tpxBits(0.25 + float64(b) + 10*float64(si)), HasTS: true, TS: 1500 + int64(b),
-					}))
+					x := tpxEx{Labels: labels.FromStrings("trace", fmt.Sprintf("t%d%d", si, b)).String(), Val: tpxBits(0.25 + float64(b) + 10*float64(si))}
+					if !s.ExNoTS {
+						x.HasTS, x.TS = true, 1500+int64(b)
+					} else if !keepNoTS {
+						continue
+					}
+					w.Ex = append(w.Ex, c36ExKey(x))
 				}
 			}
 			sort.Strings(w.Ex)
 		}
 		w.ST = s.ST
+		out = append(out, w)
+	}
+	if c.Trailer == c36TrailerHistNoTS || c.Trailer == c36TrailerHistTS {
+		kv := []string{"__name__", "h2"}
+		if c.TypeUnit {
+			kv = append(kv, "__type__", "histogram")
+		}
+		w := c36NH{Labels: labels.FromStrings(kv...).String(), Count: tpxBits(2), Sum: tpxBits(3), Bounds: []float64{1}, Buckets: []float64{1, 1}}
+		x := tpxEx{Labels: labels.FromStrings("trace", "h2").String(), Val: tpxBits(0.5)}
+		if c.Trailer == c36TrailerHistTS {
+			w.HasTS, w.TS = true, 3000
+			x.HasTS, x.TS = true, 1700
+		}
+		if c.Fmt != c36Text && (x.HasTS || keepNoTS) {
+			w.Ex = []string{c36ExKey(x)}
+		}
 		out = append(out, w)
 	}
 	return out
@@ -610,12 +669,16 @@ func c36IsNHCB(e tpxEntry) bool {
 }
 
 // c36ClassicOf reports the index of the label set whose classic series e is (-1: none).
+const c36H2 = 100 // c36ClassicOf: series of the trailing histogram family h2
+
 func c36ClassicOf(e *tpxEntry, x *c36Ctx) int {
 	if e.Kind != "series" {
 		return -1
 	}
 	switch e.LS.Get("__name__") {
 	case "h_bucket", "h_sum", "h_count":
+	case "h2_bucket", "h2_sum", "h2_count":
+		return c36H2
 	default:
 		return -1
 	}
@@ -732,13 +795,29 @@ func c36CompareS(c *c36Case, x *c36Ctx, base, conv []tpxEntry, contiguous bool, 
 	// (1) everything else
 	exp := sc.exp[:0]
 	defer func() { sc.exp = exp }()
+	// classic series of a set that is not convertible (broken): the statement says nothing about
+	// them when keep-classic is off, they are ignored on both sides
+	brokenSeries := func(e *tpxEntry) bool {
+		si := c36ClassicOf(e, x)
+		return !c.Keep && si >= 0 && si != c36H2 && sets[si].Broken && c36Breakable(&sets[si])
+	}
 	for _, e := range base {
 		if !c.Keep {
-			if si := c36ClassicOf(&e, x); si >= 0 && (!sets[si].Native || c.IgnoreNative) {
+			if si := c36ClassicOf(&e, x); si >= 0 && (si == c36H2 || !sets[si].Native || c.IgnoreNative) {
 				continue
 			}
 		}
 		exp = append(exp, e)
+	}
+	if c.Broken != 0 && !c.Keep {
+		k := 0
+		for i := range rest {
+			if !brokenSeries(&rest[i]) {
+				rest[k] = rest[i]
+				k++
+			}
+		}
+		rest = rest[:k]
 	}
 	if !tpxSameList(rest, exp) {
 		what := "passthrough-differs"
@@ -753,6 +832,23 @@ func c36CompareS(c *c36Case, x *c36Ctx, base, conv []tpxEntry, contiguous bool, 
 			}
 			if tpxSameList(rest, stripped) {
 				what = "keep-classic-exemplars-lost"
+			} else {
+				// same exemplars on the classic series, only their timestamps differ
+				a, b := append([]tpxEntry{}, rest...), append([]tpxEntry{}, exp...)
+				for _, l := range [][]tpxEntry{a, b} {
+					for i := range l {
+						if c36ClassicOf(&l[i], x) >= 0 && len(l[i].Ex) > 0 {
+							ex := append([]tpxEx{}, l[i].Ex...)
+							for k := range ex {
+								ex[k].HasTS, ex[k].TS = false, 0
+							}
+							l[i].Ex = ex
+						}
+					}
+				}
+				if tpxSameList(a, b) {
+					what = "keep-classic-exemplar-timestamp-mismatch"
+				}
 			}
 		}
 		m := ""
@@ -801,6 +897,32 @@ func c36CompareS(c *c36Case, x *c36Ctx, base, conv []tpxEntry, contiguous bool, 
 			sig = "nhcb-start-timestamp-mismatch"
 		case try(func(n *c36NH) { n.Ex = nil }):
 			sig = "nhcb-exemplars-mismatch"
+			noTS := func(n *c36NH) {
+				ex := make([]string, len(n.Ex))
+				for i, e := range n.Ex {
+					ex[i] = e[:strings.LastIndex(e, "|")]
+				}
+				sort.Strings(ex)
+				n.Ex = ex
+			}
+			fromBroken := false
+			for _, n := range gl {
+				for _, e := range n.Ex {
+					for si := range sets {
+						if sets[si].Broken && c36Breakable(&sets[si]) && strings.Contains(e, fmt.Sprintf("trace=\"t%d", si)) {
+							fromBroken = true
+						}
+					}
+				}
+			}
+			switch {
+			case fromBroken:
+				// an emitted histogram carries exemplars of an earlier histogram whose conversion failed
+				sig = "nhcb-exemplars-of-failed-conversion-reused"
+			case try(noTS):
+				// right exemplars, but with a timestamp they do not have (or vice versa)
+				sig = "nhcb-exemplar-timestamp-mismatch"
+			}
 		case try(func(n *c36NH) { n.Labels = "" }):
 			sig = "nhcb-labels-mismatch"
 		case try(func(n *c36NH) { n.Sum = 0 }):
@@ -1013,13 +1135,84 @@ func c36ValueJobs(r *vx.Run) []c36Job {
 				}
 			}
 			jobs = append(jobs, c36Job{C: c36Case{LL: ll, Sh: sh, Vec: nvec - 2, Sum: 0}, Mode: 2})
+			jobs = append(jobs, c36Job{C: c36Case{LL: ll, Sh: sh, Vec: nvec - 2, Sum: 0}, Mode: 3})
 		}
 	}
 	return jobs
 }
 
+// c36ExemplarInner (mode 3, consecutive histograms): every timestamp combination x following
+// family {none, histogram h2 without / with timestamps} x exemplars of each set with / without
+// timestamp x {all sets convertible, one set not convertible} x keep-classic, every bucket line
+// with an exemplar, in expfmt and reversed line order (protobuf: both metric orders).
+func c36ExemplarInner(j c36Job, f func(c *c36Case) bool) {
+	lists := c36LabelLists[j.C.LL]
+	sh := j.C.Sh
+	n := len(lists)
+	tsl := len(c36TS1)
+	if n == 2 {
+		tsl = len(c36TS2)
+	}
+	base := j.C
+	base.Ex = 2
+	sets := base.sets()
+	brokens := []int{0}
+	for i := range sets {
+		if c36Breakable(&sets[i]) {
+			brokens = append(brokens, 1<<i)
+		}
+	}
+	for tsc := 0; tsc < tsl; tsc++ {
+		for _, tr := range []int{c36TrailerNone, c36TrailerHistNoTS, c36TrailerHistTS} {
+			for fm := c36Text; fm <= c36ProtoWrap; fm++ {
+				for _, keep := range []bool{false, true} {
+					for ex := 0; ex < 1<<n; ex++ {
+						if fm == c36Text && ex != 0 {
+							continue // no exemplars in the text format
+						}
+						for _, br := range brokens {
+							if fm == c36Proto && br != 0 {
+								continue // the protobuf parser rejects the whole payload
+							}
+							c := base
+							c.Fmt, c.Keep, c.TSC, c.Trailer, c.ExNoTS, c.Broken = fm, keep, tsc, tr, ex, br
+							if fm == c36Text {
+								c.Ex = 0
+							}
+							if fm == c36Proto || fm == c36ProtoWrap {
+								for swap := 0; swap < n; swap++ {
+									cc := c
+									cc.Perm = []int{swap}
+									if !f(&cc) {
+										return
+									}
+								}
+								continue
+							}
+							nl := c36NLines(sh)
+							id, rev := make([]int, nl), make([]int, nl)
+							for i := range id {
+								id[i], rev[i] = i, nl-1-i
+							}
+							c1, c2 := c, c
+							c1.Perm, c2.Perm = id, rev
+							if !f(&c1) || !f(&c2) {
+								return
+							}
+						}
+					}
+				}
+			}
+		}
+	}
+}
+
 // c36ValueInner enumerates the inner dimensions of one values-sweep job.
 func c36ValueInner(j c36Job, f func(c *c36Case) bool) {
+	if j.Mode == 3 {
+		c36ExemplarInner(j, f)
+		return
+	}
 	lists := c36LabelLists[j.C.LL]
 	sh := j.C.Sh
 	nvec := len(c36Vectors(len(c36Shapes[sh[0]].Bounds)))
